@@ -319,6 +319,7 @@ def run(ck, F):
             rb, rm = b.get('recv') or b.get('this'), m.get('recv') or m.get('this')
             return rb is not None and strip_all(rb) == strip_all(rm)
         return False
+    _dom5 = {}
     for f in sorted(pf, key=lambda f: f['id']):
         bad = []
         for n in walk(f.get('body')):
@@ -342,6 +343,30 @@ def run(ck, F):
                 continue
             cb = const_bytes(a[0])
             ub = upper(a[1])
+            if cb is not None and ub is None:
+                # an extent computed at run time: bounded only by the tests that dominate the call
+                import domguards as _dg
+                if f['id'] not in _dom5:
+                    _dom5[f['id']] = _dg.dominating(f)
+                ext = strip_all(a[1])
+                key5 = lambda x: (x.get('k'), x.get('kind'), x.get('id', x.get('idx')), x.get('name')) if isinstance(x, dict) and x.get('k') == 'ref' else None
+                for c5, truth in _dom5[f['id']].get(id(n), []):
+                    c5 = strip_all(c5)
+                    if c5.get('k') != 'binop' or c5.get('op') not in ('<', '<=', '>', '>='):
+                        continue
+                    l5, r5, op5 = strip_all(c5['l']), strip_all(c5['r']), c5['op']
+                    if not truth:
+                        op5 = {'<': '>=', '<=': '>', '>': '<=', '>=': '<'}[op5]
+                    if key5(l5) is not None and key5(l5) == key5(ext) and upper(c5['r']) is not None and op5 in ('<', '<='):
+                        b5 = upper(c5['r']) - (1 if op5 == '<' else 0)
+                        ub = b5 if ub is None else min(ub, b5)
+                    if key5(r5) is not None and key5(r5) == key5(ext) and upper(c5['l']) is not None and op5 in ('>', '>='):
+                        b5 = upper(c5['l']) - (1 if op5 == '>' else 0)
+                        ub = b5 if ub is None else min(ub, b5)
+                if ub is None:
+                    bad.append(f'{c["name"]} of a number of bytes computed at run time (line {n.get("ln")}) from a constant of {len(cb) - 1} characters: nothing '
+                               'keeps the count within the constant, the write reads past it')
+                    continue
             if cb is None or ub is None:
                 raise AnalysisBroken(f'{f["id"]}: unformatted {c["name"]} at line {n.get("ln")} whose buffer is not a constant / whole view, or '
                                      'whose extent has no constant upper bound: outside the recognised forms')
